@@ -58,10 +58,13 @@ def voteVerify (H : Bytes → Bytes) (aux : VoteAux) (inp : VoteInput) : Verdict
       .pending (if flag then { aux with tallies := putAssoc aux.tallies id (false, voters') } else aux)
 
 def ETH_ROUTER : Nat := 2
+/-- routers whose handler verifies an Ethereum storage proof against a synced header (eth, bsc, heco, pixiechain,
+hsc, bytom): driven with synthetic state tries, the verdict of the proof verification is supplied with the input -/
+def ethLikeRouters : List Nat := [2, 6, 7, 19, 20, 22]
 def QUORUM_ROUTER : Nat := 8
 
-/-- Oracles of the driver: the vote router is the model above; the eth router accepts exactly the inputs whose
-storage proof the harness built validly (`proofValid`); the ripple router collects votes in the same tallies
+/-- Oracles of the driver: the vote router is the model above; the eth-like routers accept exactly the inputs
+whose storage proof the harness built validly (`proofValid`); the ripple router collects votes in the same tallies
 and, once the quorum is reached, needs asset-binding records that the harness never plants (so it fails: with
 `done` when the message is already marked, otherwise in the binding lookup); every other router rejects (the
 harness feeds them inputs without valid proofs); the BTC / ripple transaction builders fail on the harness' inputs. -/
@@ -72,7 +75,7 @@ def voteOracles (H : Bytes → Bytes) : Oracles VoteAux VoteInput where
       match voteVerify H s.aux inp with
       | .accept p _ => if (inp.src, p.crossChainID) ∈ s.done then .reject "done" else .reject "verify"
       | v => v
-    else if router = ETH_ROUTER then
+    else if router ∈ ethLikeRouters then
       if inp.proofValid then
         match inp.decoded with
         | some p => .accept p s.aux
